@@ -15,6 +15,8 @@ Node specs (lists, so they survive a JSON round trip):
   ["PY", kids]                   plain python list of children (nested-list argument)
   ["TU", kids]                   tuple of children
   ["NONE"]                       None
+  ["XS", result]                 tagifiable returning the SAME stored expansion object on every call
+  ["DUP", kids]                  [c, "-", c] with c one list object (same container twice)
   ["DI", info]                   HTMLDependency from a depinfo dict (hv/ref/deps.py)
   ["HC", kids]                   head_content(*kids)
   ["OBJ"] ["DICT"] ["SET"] ["BYTES"]   values of unsupported type (object(), {"a":1}, {1}, b"x")
@@ -96,6 +98,22 @@ class TagifRepr(Tagif):
 
     def _repr_html_(self):
         return self.markup
+
+
+class TagifStored(Tagif):
+    """Tagifiable that hands out the SAME stored (already tagified) object on every call,
+    as a component that keeps its rendered UI around would."""
+
+    def __init__(self, result_spec):
+        super().__init__(result_spec)
+        r = build(result_spec)
+        if hasattr(r, "tagify") and not isinstance(r, (str, HTML, MetadataNode)):
+            r = r.tagify()
+        self.stored = r
+
+    def tagify(self):
+        self.calls += 1
+        return self.stored
 
 
 class TagifRaw(Tagif):
@@ -209,6 +227,11 @@ def build(spec: Any) -> Any:
         return jsx(spec[1])
     if k == "XJ":
         return TagifRaw(spec[1])
+    if k == "XS":
+        return TagifStored(spec[1])
+    if k == "DUP":
+        c = [build(x) for x in spec[1]]
+        return [c, "-", c]          # the same container object twice in one argument
     raise ValueError(f"unknown spec kind {k!r}")
 
 
